@@ -92,7 +92,12 @@ struct HostState {
     faults: VecDeque<Option<PostFault>>,
     posts: Vec<(Vec<u8>, bool)>,
     port: u16,
+    /// every marker of the case under evaluation starts with this tag; uploads that carry markers of an EARLIER case come from
+    /// a reader that a starved machine did not let finish in time: they are answered and not counted
+    case_tag: String,
 }
+
+static CASE_NO: std::sync::atomic::AtomicU64 = std::sync::atomic::AtomicU64::new(0);
 
 fn parse_batch(body: &[u8]) -> Result<Vec<BTreeMap<String, String>>, String> {
     use xml::reader::{EventReader as XR, XmlEvent};
@@ -172,8 +177,15 @@ fn parse_batch(body: &[u8]) -> Result<Vec<BTreeMap<String, String>>, String> {
 }
 
 fn eval(mock: &Mock, host: &Arc<Mutex<HostState>>, workdir: &str, case: &Case, stats: &mut Stats) -> Outcome {
-    let dir = std::path::PathBuf::from(format!("{}/events", workdir));
+    // a directory and a marker tag of its own for every evaluation: a reader of an earlier evaluation that is still around
+    // (it was cancelled but not yet scheduled) can neither consume this case's files nor be mistaken for this case's reader
+    let case_no = CASE_NO.fetch_add(1, std::sync::atomic::Ordering::SeqCst) % 100_000_000;
+    let tag = format!("c{:08}-", case_no);
+    let dir = std::path::PathBuf::from(format!("{}/events-{}", workdir, case_no));
     let _ = std::fs::remove_dir_all(&dir);
+    if case_no >= 4 {
+        let _ = std::fs::remove_dir_all(format!("{}/events-{}", workdir, case_no - 4));
+    }
     std::fs::create_dir_all(&dir).unwrap();
     // markers and event files
     let mut originals: BTreeMap<String, (GEvent, usize)> = BTreeMap::new();
@@ -194,7 +206,7 @@ fn eval(mock: &Mock, host: &Arc<Mutex<HostState>>, workdir: &str, case: &Case, s
     for (fi, f) in files.iter().enumerate() {
         let mut arr = Vec::new();
         for (ei, e) in f.iter().enumerate() {
-            let marker = format!("marker-f{}-e{}{}", fi, ei, e.op);
+            let marker = format!("{}marker-f{}-e{}{}", tag, fi, ei, e.op);
             originals.insert(marker.clone(), (e.clone(), fi));
             let version = if e.version.is_empty() { "9.9.9".to_string() } else { e.version.clone() };
             let stamp = if e.stamp.is_empty() { "2026-01-01T00:00:00.000".to_string() } else { e.stamp.clone() };
@@ -206,6 +218,7 @@ fn eval(mock: &Mock, host: &Arc<Mutex<HostState>>, workdir: &str, case: &Case, s
         let mut h = host.lock().unwrap();
         h.faults = case.faults.iter().cloned().collect();
         h.posts.clear();
+        h.case_tag = tag.clone();
     }
     let _ = mock.take_requests();
     let port = host.lock().unwrap().port;
@@ -266,7 +279,7 @@ fn eval(mock: &Mock, host: &Arc<Mutex<HostState>>, workdir: &str, case: &Case, s
         let _ = tx.send(());
     });
     let mut term = watcher.join().unwrap_or_else(|_| Err("watcher panicked".into()));
-    if rx.recv_timeout(Duration::from_secs(if term.is_ok() { 20 } else { 5 })).is_ok() {
+    if rx.recv_timeout(Duration::from_secs(if term.is_ok() { 60 } else { 5 })).is_ok() {
         let _ = reader_thread.join();
     } else if term.is_ok() {
         term = Err("the reader did not return after it was cancelled (it no longer reaches an await point)".into());
@@ -352,7 +365,7 @@ fn eval(mock: &Mock, host: &Arc<Mutex<HostState>>, workdir: &str, case: &Case, s
         let _ = first_time;
     }
     if let Some((fi, target)) = exact_target {
-        let prefix = format!("marker-f{}-", fi);
+        let prefix = format!("{}marker-f{}-", tag, fi);
         let sizes: Vec<usize> = posts.iter().filter(|(b, _)| String::from_utf8_lossy(b).contains(&prefix)).map(|(b, _)| b.len()).collect();
         stats.class(&format!("exact-batch:65536{:+}", target as i64 - 65536));
         if target < 65536 && !any_fault && sizes != vec![target] {
@@ -428,7 +441,7 @@ fn main() {
     // loopback only: no namespace needed; the mock listens on an ephemeral port
     let mock = Mock::new();
     let port = mock.listen("host", "127.0.0.1:0").expect("mock listen");
-    let host = Arc::new(Mutex::new(HostState { faults: VecDeque::new(), posts: Vec::new(), port }));
+    let host = Arc::new(Mutex::new(HostState { faults: VecDeque::new(), posts: Vec::new(), port, case_tag: String::new() }));
     {
         let host = host.clone();
         mock.set_responder(Box::new(move |r: &Recorded| {
@@ -444,6 +457,10 @@ fn main() {
                 return ResponseSpec::ok(gpa_verif::canned::INSTANCE.as_bytes()).with_header("Content-Type", "application/json; charset=utf-8");
             }
             if r.method == "POST" && r.target == "/machine/?comp=telemetrydata" {
+                let find = |hay: &[u8], needle: &[u8]| hay.windows(needle.len().max(1)).any(|w| w == needle);
+                if !h.case_tag.is_empty() && !find(&r.body, h.case_tag.as_bytes()) && find(&r.body, b"-marker-f") {
+                    return ResponseSpec::ok(b"");
+                }
                 let f = h.faults.pop_front().flatten();
                 let accepted = matches!(f, None | Some(PostFault::Late(_)));
                 h.posts.push((r.body.clone(), accepted));
